@@ -167,11 +167,42 @@ where
             rank_out: res_infos.rank(),
         };
 
-        self.blind_rotation_execute_tmp_bytes(block_size, extension_factor, res_infos, &cbt_infos.brk_infos())
+        let legacy: usize = self
+            .blind_rotation_execute_tmp_bytes(block_size, extension_factor, res_infos, &cbt_infos.brk_infos())
             .max(self.glwe_trace_tmp_bytes(res_infos, res_infos, &cbt_infos.atk_infos()))
             .max(self.ggsw_from_gglwe_tmp_bytes(res_infos, &cbt_infos.tsk_infos()))
             + GLWE::<Vec<u8>>::bytes_of_from_infos(res_infos)
-            + GGLWE::bytes_of_from_infos(&gglwe_infos)
+            + GGLWE::bytes_of_from_infos(&gglwe_infos);
+
+        // The blind rotation runs at the precision of the keys, not of the result: mirror the
+        // carves of `circuit_bootstrap_core` (accumulator over the ATK radix, then the BRK-radix
+        // rotation result together with the blind rotation, or the per-row trace / rotation).
+        let brk_infos = cbt_infos.brk_infos();
+        let atk_infos = cbt_infos.atk_infos();
+        let glwe_brk_layout: GLWELayout = GLWELayout {
+            n: res_infos.n(),
+            base2k: brk_infos.base2k,
+            k: brk_infos.k,
+            rank: brk_infos.rank,
+        };
+        let glwe_atk_layout: GLWELayout = GLWELayout {
+            n: res_infos.n(),
+            base2k: atk_infos.base2k,
+            k: brk_infos.k,
+            rank: brk_infos.rank,
+        };
+        let lvl_rotation: usize = GLWE::<Vec<u8>>::bytes_of_from_infos(&glwe_brk_layout)
+            + self
+                .blind_rotation_execute_tmp_bytes(block_size, extension_factor, &glwe_brk_layout, &brk_infos)
+                .max(self.glwe_normalize_tmp_bytes());
+        let lvl_rows: usize = self
+            .glwe_trace_tmp_bytes(res_infos, &glwe_atk_layout, &atk_infos)
+            .max(self.glwe_rotate_tmp_bytes());
+        let core: usize = GLWE::<Vec<u8>>::bytes_of_from_infos(&glwe_atk_layout) + lvl_rotation.max(lvl_rows);
+
+        legacy
+            .max(core)
+            .max(self.ggsw_expand_rows_tmp_bytes(res_infos, &cbt_infos.tsk_infos()))
     }
 
     fn circuit_bootstrapping_execute_to_constant<R, L, D>(
